@@ -24,3 +24,13 @@ for q, ci in sorted(P.classes.items()):
         pos[q + ".<fields>"] = ci.all_fields()
 json.dump(pos, open("/verif/bbstatic/signatures_pos.json", "w"), indent=0, sort_keys=True)
 print(len(pos), "positional orders")
+
+# default values of the pinned parameters (source text): an existing call that omits the argument keeps meaning the same
+import ast
+dfl = {}
+for q, fi in sorted(P.functions.items()):
+    d = {k: ast.unparse(v) for k, v in fi.defaults().items()}
+    if d:
+        dfl[q] = d
+json.dump(dfl, open("/verif/bbstatic/signatures_defaults.json", "w"), indent=0, sort_keys=True)
+print(len(dfl), "functions with defaults")
